@@ -549,19 +549,28 @@ def weak_object_phase(fx, log, rec, r, n):
             return "hi"
     obj = Ephemeral()
     oid = "ephemeral%d" % n
-    fx.daemon.register(obj, oid, weak=True)
-    pay = {"weak_phase": True, "servertype": fx.servertype}
-    rec.case(("weak", n, fx.servertype), nontrivial=True)
+    # the ways an id becomes unknown again: the weakly registered object is collected, or the application withdraws the object (weak or strong
+    # registration) by object or by id
+    how = ("weak-collected", "weak-unregister-object", "weak-unregister-id", "strong-unregister-object", "strong-unregister-id")[(n // 50 + n) % 5]
+    fx.daemon.register(obj, oid, weak=how.startswith("weak"))
+    pay = {"weak_phase": True, "servertype": fx.servertype, "n": n}
+    rec.case(("weak", how, fx.servertype), nontrivial=True)
     with fx.proxy(oid) as p:
         p._pyroHandshake = {"mode": "accept", "token": "weak-warmup"}
         if p.hello() != "hi":
             rec.inconc("warm-up call on the weakly registered object failed")
             return
-    del obj
-    gc.collect()
-    if not fx.wait_until(lambda: oid not in fx.daemon.objectsById, 5.0):
-        rec.inconc("the weakly registered object was not collected / unregistered within the watchdog")
-        return
+    if how == "weak-collected":
+        del obj
+        gc.collect()
+        if not fx.wait_until(lambda: oid not in fx.daemon.objectsById, 5.0):
+            rec.inconc("the weakly registered object was not collected / unregistered within the watchdog")
+            return
+    elif how.endswith("unregister-object"):
+        fx.daemon.unregister(obj)
+    else:
+        fx.daemon.unregister(oid)
+    rec.count("withdrawn:" + how)
     ser = P.serializers.serializers[r.choice(fixture.SERIALIZERS)]
     before = len(log.of("exec"))
     c = wire.RawClient(fx.location, timeout=5.0)
@@ -577,8 +586,8 @@ def weak_object_phase(fx, log, rec, r, n):
         c.close()
     ran = [e for e in log.of("exec")[before:] if e[2] == "mark"]
     if ran or m is None or m.type != wire.CONNECTFAIL:
-        rec.violation("handshake-accepted-wrongly:collected-weak-object", "CONNECT for id %r, whose weakly registered object has been collected (the id is unknown again), was answered with %s and %d pipelined call(s) ran" % (
-            oid, describe_reply(P, m) if m is not None else "nothing", len(ran)), pay)
+        rec.violation("handshake-accepted-wrongly:collected-weak-object" if how == "weak-collected" else "handshake-accepted-wrongly:withdrawn-object", "CONNECT for id %r, which is unknown again (%s), was answered with %s and %d pipelined call(s) ran" % (
+            oid, how, describe_reply(P, m) if m is not None else "nothing", len(ran)), pay)
         return
     rec.count("collected_weak_ids_refused")
 
@@ -622,7 +631,7 @@ def replay(payload, rec):
     fx, log = make_env(P, st)
     try:
         if payload.get("weak_phase"):
-            weak_object_phase(fx, log, rec, gen.rng(0, "replay"), 1)
+            weak_object_phase(fx, log, rec, gen.rng(0, "replay"), payload.get("n", 0))
         elif payload.get("baseexception"):
             baseexception_phase(P, st, rec, gen.rng(0, "replay"))
         elif payload.get("sibling_probe"):
